@@ -173,6 +173,9 @@ type Finding struct {
 	ID       string `json:"id"`
 	SigRegex string `json:"sig_regex"`
 	What     string `json:"what"`
+	// TaintProps limits what an occurrence of this finding puts beyond judgement in the rest of its case:
+	// only later violations of these properties (the finding's known consequences). Empty: the whole case.
+	TaintProps []string `json:"taint_props,omitempty"`
 }
 
 type KnownFile struct {
@@ -489,15 +492,23 @@ func CheckMain(args []string) int {
 	// A case is tainted from its first violation that matches a known finding on: a history that
 	// already went wrong in a recorded way proves nothing about what follows in the same case.
 	// Violations before that point, and every case without a match, are judged in full.
-	taintedCase := map[int]bool{}
+	taintedCase := map[int]map[string]bool{} // case -> properties put beyond judgement ("*": all)
 	tainted := 0
 	for _, v := range total.Violations {
 		if f := known.Match(v); f != nil {
 			knownHits[f.ID]++
-			taintedCase[v.Case] = true
+			if taintedCase[v.Case] == nil {
+				taintedCase[v.Case] = map[string]bool{}
+			}
+			if len(f.TaintProps) == 0 {
+				taintedCase[v.Case]["*"] = true
+			}
+			for _, p := range f.TaintProps {
+				taintedCase[v.Case][p] = true
+			}
 			continue
 		}
-		if taintedCase[v.Case] {
+		if t := taintedCase[v.Case]; t["*"] || t[origProp(v)] {
 			tainted++
 			continue
 		}
@@ -677,6 +688,17 @@ func crashInRepo(log string) string {
 		line = line[:160]
 	}
 	return line
+}
+
+// origProp is the property whose monitor raised v: fault-enumeration checks re-label the violations of the
+// other monitors as "safety:<prop>:<sig>" under their own property.
+func origProp(v Violation) string {
+	if strings.HasPrefix(v.Sig, "safety:") {
+		if parts := strings.SplitN(v.Sig, ":", 3); len(parts) == 3 {
+			return parts[1]
+		}
+	}
+	return v.Prop
 }
 
 func filterCase(vs []Violation, c int) []Violation {
